@@ -9,6 +9,7 @@ import (
 	"net/http"
 	"net/http/httptest"
 	"net/url"
+	"os"
 	"regexp"
 	"runtime"
 	"sort"
@@ -41,15 +42,76 @@ type RegT struct {
 	// Mounted route (MountSub > 0): SubPath is registered on sub-router number MountSub (as its route number
 	// SubIdx), and the sub-router is mounted with r.Mount(MountPrefix, sub) when the script reaches the first route
 	// of the block (the regs of one Mount call are contiguous, in the sub-router's registration order; the same
-	// sub-router may be mounted again under another prefix later in the script). Path is what the route is
-	// expected to be on the main router — MountJoin, Mount's documented rule — and Groups is empty.
+	// sub-router may be mounted again under another prefix later in the script). The model is handed SubPath and
+	// MountPrefix and joins them itself; Path (MountJoin) only serves the request generator and the probe's
+	// bookkeeping, and Groups is empty.
+	// Static: this registration and the next one (same Path, methods GET then HEAD) come from ONE call
+	// r.StaticFS(Static, fs). Static is the prefix as the caller spells it ("/assets", "/assets/", "assets",
+	// "/assets/*"), Path the pattern it stands for (StaticPattern). A file handler cannot report a route: the
+	// harness serves from a file system that records that it was opened, and reports the registration, the pattern
+	// and the captured remainder from there (finishStatic). Only in scripts served by one request at a time.
+	Static      string `json:",omitempty"`
 	MountSub    int    `json:",omitempty"`
 	MountPrefix string `json:",omitempty"`
 	SubPath     string `json:",omitempty"`
 	SubIdx      int    `json:",omitempty"`
 }
 
-// MountJoin is the documented rule of Router.Mount, written here independently of route_bridge.go: the prefix
+// StaticPattern is the documented rule of Router.Static / StaticFS: the prefix gets a leading slash and stands for
+// everything below it (prefix + "/*"; a prefix already written with a trailing slash or with "/*" is taken as such).
+func StaticPattern(prefix string) string {
+	p := prefix
+	if !strings.HasPrefix(p, "/") {
+		p = "/" + p
+	}
+	switch {
+	case strings.HasSuffix(p, "/*"):
+		return p
+	case strings.HasSuffix(p, "/"):
+		return p + "*"
+	}
+	return p + "/*"
+}
+
+// HasStatic: the script contains routes registered through StaticFS.
+func HasStatic(script []RegT) bool {
+	for _, g := range script {
+		if g.Static != "" {
+			return true
+		}
+	}
+	return false
+}
+
+// staticFS serves one small regular file under every name and records (in the session's shared record) that it
+// was opened and for which StaticFS call.
+type staticFS struct {
+	getID, headID int
+	pattern       string
+	shared        *ObsT
+}
+
+func (f *staticFS) Open(string) (http.File, error) {
+	f.shared.static = f
+	return staticFile{strings.NewReader("x")}, nil
+}
+
+type staticFile struct{ *strings.Reader }
+
+func (staticFile) Close() error                       { return nil }
+func (staticFile) Readdir(int) ([]os.FileInfo, error) { return nil, nil }
+func (f staticFile) Stat() (os.FileInfo, error)       { return staticInfo{f.Reader.Size()}, nil }
+
+type staticInfo struct{ n int64 }
+
+func (staticInfo) Name() string       { return "f.txt" }
+func (i staticInfo) Size() int64      { return i.n }
+func (staticInfo) Mode() os.FileMode  { return 0o444 }
+func (staticInfo) ModTime() time.Time { return time.Time{} }
+func (staticInfo) IsDir() bool        { return false }
+func (staticInfo) Sys() any           { return nil }
+
+// MountJoin is the documented rule of Router.Mount (used to aim requests; the model computes its own): the prefix
 // loses one trailing slash and gets a leading one; the sub-router's root route "/" is the prefix itself, every
 // other route is the prefix followed by its path.
 func MountJoin(prefix, sub string) string {
@@ -268,6 +330,7 @@ type ObsT struct {
 	Params  map[string]string
 	Lookups map[string]string
 	Exists  bool // RouteExists(method, path) asked after the request
+	static  *staticFS
 }
 
 // AskNames: every parameter name some route declares, "filepath", and a name nobody declares.
@@ -394,6 +457,12 @@ func Build(c CaseT, ask []string, obs *ObsT) *router.Router {
 	for i, g := range c.Script {
 		if c.Warm && i == c.WarmupAt {
 			r.Warmup()
+		}
+		if g.Static != "" && c.Eng.Version == "" {
+			if g.Method == "GET" {
+				r.StaticFS(g.Static, &staticFS{getID: i, headID: i + 1, pattern: g.Path, shared: shared})
+			}
+			continue // (the HEAD twin was registered by the same call)
 		}
 		if g.MountSub > 0 && c.Eng.Version == "" { // (in a version tree the route is registered under its full path)
 			if i > 0 && c.Script[i-1].MountSub == g.MountSub && c.Script[i-1].MountPrefix == g.MountPrefix {
@@ -559,9 +628,30 @@ func (s *Session) serve(q ReqT, h *reqHook) (o ObsT) {
 	cur := ObsT{Ran: -1}
 	h.obs = &cur
 	rec := httptest.NewRecorder()
+	s.cur.static = nil
 	finish := func() ObsT {
 		o := cur
 		o.Status = rec.Code
+		if sf := s.cur.static; sf != nil && o.Ran < 0 {
+			// a StaticFS route answered: which registration, under which pattern, with which remainder
+			s.cur.static = nil
+			o.Ran = sf.getID
+			if q.Method == "HEAD" {
+				o.Ran = sf.headID
+			}
+			o.Pattern = sf.pattern
+			capture := strings.TrimPrefix(q.Path, strings.TrimSuffix(sf.pattern, "*"))
+			o.Params = map[string]string{"filepath": capture}
+			o.Lookups = map[string]string{}
+			for _, n := range s.ask {
+				if n == "filepath" {
+					o.Lookups[n] = capture
+				} else {
+					o.Lookups[n] = ""
+				}
+			}
+			o.Status = http.StatusOK // (the file server may also redirect: the route is what is observed)
+		}
 		if a := rec.Header().Get("Allow"); a != "" {
 			o.Allow = strings.Split(a, ", ")
 		}
@@ -580,7 +670,7 @@ func (s *Session) serve(q ReqT, h *reqHook) (o ObsT) {
 	req := httptest.NewRequest(q.Method, "/", nil)
 	req.URL.Path = q.Path
 	req.URL.RawPath = ""
-	if q.Raw != "" {
+	if q.Raw != "" && !HasStatic(s.c.Script) { // (http.StripPrefix looks at RawPath too)
 		if u, err := url.PathUnescape(q.Raw); err == nil && u == q.Path {
 			req.URL.RawPath = q.Raw
 		}
@@ -780,13 +870,24 @@ func InputTokens(l *hx.Line, c CaseT, ask []string) {
 	}
 	var all []cref
 	for _, g := range c.Script {
-		l.Str(g.Method).Strs(g.Groups).Str(g.Path)
+		if g.MountSub > 0 {
+			// a route of a mounted sub-router: the model gets the path registered on the sub-router and the prefix
+			// handed to Mount, and joins them itself (Model/Radix `mountPath`, Spec/Match `regText`)
+			l.Str(g.Method).Strs(nil).Str(g.SubPath)
+		} else {
+			l.Str(g.Method).Strs(g.Groups).Str(g.Path)
+		}
 		eff := effectiveSpec(g.Cons)
 		l.Nat(len(eff))
 		for _, e := range eff {
 			id := len(all)
 			all = append(all, cref{id, Meaning(e)})
 			l.Str(e.Name).Nat(id)
+		}
+		if g.MountSub > 0 {
+			l.Bool(true).Str(g.MountPrefix)
+		} else {
+			l.Bool(false)
 		}
 	}
 	vals := map[string]bool{}
